@@ -536,8 +536,8 @@ func (s *scope) merge(c *sx.Node, br *scope) {
 }
 
 func (s *scope) ifStmt(x *ast.IfStmt) {
-	if x.Init != nil || x.Else != nil {
-		bail("if with init/else")
+	if x.Init != nil {
+		bail("if with init")
 	}
 	// if err != nil { return …, wrap(err) }
 	if be, ok := x.Cond.(*ast.BinaryExpr); ok && be.Op == token.NEQ && isIdent(be.X, "err") && isIdent(be.Y, "nil") {
@@ -558,6 +558,23 @@ func (s *scope) ifStmt(x *ast.IfStmt) {
 	br.block(x.Body.List)
 	if br.result != nil {
 		bail("return inside a conditional")
+	}
+	if x.Else != nil {
+		// if c { A } else { B }: the state after B plays the part of the state before the statement
+		eb, ok := x.Else.(*ast.BlockStmt)
+		if !ok {
+			bail("else if")
+		}
+		el := s.child()
+		el.block(eb.List)
+		if el.result != nil {
+			bail("return inside a conditional")
+		}
+		for k := range s.vars {
+			if nv, ok := el.vars[k]; ok {
+				s.vars[k] = nv
+			}
+		}
 	}
 	s.merge(c, br)
 }
